@@ -352,7 +352,7 @@ func main() {
 		return
 	}
 	cfg := vhlib.ParseFlags()
-	sum := vhlib.NewSummary("one case = one forced interleaving of a segment rotation (4 steps) with a query (3 steps) on the real code, for a record query (`*`) and a statistics query (`* | stats count`); all 35 interleavings are enumerated (exhaustive at this granularity); an interleaving that blocks on a lock is recorded as infeasible; non-trivial = both threads take at least one step before the other finishes. Second stream (blocks.go): the same 35 interleavings on segments of B blocks under GOMAXPROCS = P for query shapes of every searcher route — time-ordered records (`*`), segment statistics (`* | stats count`), any-order records in front of a later stats command (`* | eval/where/fields/rename .. | stats count [by id]`, P in 2..4 (thorough: also 6/8/16), B drawn from {1, P-1, P, P+1, 2P, 2P+1, 3P}), and, as a separate stream because two known defects live there, group-by statistics as first command (`* | stats count by id`); quick: every interleaving once per stream with shape/P/B drawn from the seed, thorough: every interleaving x every any-order shape x 4 values of P x 2 values of B; the free-running stress alternates `*` with an any-order by-id query")
+	sum := vhlib.NewSummary("one case = one forced interleaving of a segment rotation (4 steps) with a query (3 steps) on the real code, for a record query (`*`) and a statistics query (`* | stats count`); all 35 interleavings are enumerated (exhaustive at this granularity); an interleaving that blocks on a lock is recorded as infeasible; non-trivial = both threads take at least one step before the other finishes. Second stream (blocks.go): the same 35 interleavings on segments of B blocks under GOMAXPROCS = P for query shapes of every searcher route — time-ordered records (`*`), segment statistics (`* | stats count`), any-order records in front of a later stats command (`* | eval/where/fields/rename .. | stats count [by id]`, P in 2..4 (thorough: also 6/8/16), B drawn from {1, P-1, P, P+1, 2P, 2P+1, 3P}), and group-by statistics as first command (`* | stats count by id`); quick: every interleaving once per stream with shape/P/B drawn from the seed, thorough: every interleaving x every any-order shape x 4 values of P x 2 values of B; the free-running stress alternates `*` with an any-order by-id query")
 	if err := initSiglens(cfg.Out + "/data"); err != nil {
 		sum.HarnessError(err.Error())
 		sum.Write(cfg.Out)
